@@ -54,5 +54,16 @@ inline bool dispatch(const std::string &type, splitmix &r, const std::string &by
   }
   return false;
 }
+
+// `ld cache <bits> <hex>`: cache::load is outside C12 (documented "could be changed"); the entry is
+// used by the C11 check to load bytes produced by the Lean model into a fresh cache
+inline std::string load_cache(unsigned bits, const std::string &bytes)
+{
+  if (bits < 1 || bits > 20) return "bad-op";
+  cache c(bits);
+  std::istringstream in(bytes);
+  const bool ok(c.load(in));
+  return std::string(ok ? "ok" : "fail") + " changed " + enc_cache(c, bits);
+}
 }  // namespace c12big
 #endif
